@@ -13,11 +13,15 @@ Operations (names are what replay files contain):
                   file's timestamp + {'>': 1 s, '=': 0, '+': 1 us, '<': -1 s, '~': 1 s + 0.5 us}, handed over by the
                   virtual clock ('c', timestamp=None) or as the explicit timestamp argument ('g'; '~' exists only there:
                   a float with a sub-microsecond part, like time()).  While a file is open only w<n>>c exists.
+                  n = 0 is the empty record of the line modes (searches named .../empty); sizes of more than one digit are
+                  written in braces (w{1048576}>c, the big-record family).
                   Clock steps are folded into the write because rolllog reads the clock nowhere else (except the
                   constructor's refusal of files from the future, see 'ro').  A fifth character 'f' / 'n' passes
                   flush=True / flush=False to that write() (alphabets with 'wflush' only).
   fl              (configurations with a writer that does not flush after every record) flush() on the writer
   rd, rb          read() / read_block() on the reader
+  rdo, rbo        read(m) / read_block(m) with the mode override m = 'binl' on a txt / json log (the raw lines, "to send it
+                  over directly ... without the overhead of decoding") and m = 'txt' on a binl log (searches that list them)
   ss, se, sv      seek(('start',0)) / seek(('end',0)) / seek(position saved by the last 'tl')
   tl              tell(), remembered for 'sv'
   rf              refresh() (read-only readers)
@@ -26,6 +30,7 @@ Operations (names are what replay files contain):
   do, dm, dn      external deletion of the oldest / middle / newest log file on disk
 
   ra              (reduced alphabets only) read() until nothing more comes
+  rba, rdoa, rboa (big-record family only) read_block() / read(m) / read_block(m) until nothing more comes
 
 Configurations: mode x file_size {1,4,10} x total_size {3,12,40} x reader kind {self: the writer object reads its own
 log, auto: rdonly autorefresh reader, manual: rdonly reader with autorefresh=False}, plus targeted searches with reduced
@@ -33,7 +38,14 @@ alphabets (see plans()): pruning under a reader inside a multi-record file; 'txt
 txt records containing a line-boundary character other than '\\n' (\\r, \\x0c, \\x85, U+2028, ...); a position saved in the
 newest file, that file deleted externally, file list rebuilt, seek(saved); a writer constructed with flush=False (records
 stay in the writer's buffer until flush() or the roll-over that closes the file: a file that is new on disk is empty, readers
-list it with size 0) followed by all three reader kinds.
+list it with size 0) followed by all three reader kinds; empty records (binl / txt, payload size 0) next to 1-byte ones, read
+back with read(), read_block() and read_block(mode override), no pruning or deletion.
+
+Big-record family (big_cases()): not a search but a fixed list of short histories, executed and judged by the same executor
+and model: one record whose payload size is 2**k + d (k = 13 (the io buffer size), 16, 18, 20; d = -3 .. +1), 2**21 + 1 or
+3 * 2**20 + 5, written between / before 3-byte records in every mode, with one file per record (file_size 1) and with
+everything in one file (file_size 16 MiB), read back line by line, in blocks and in blocks with the mode override, after
+all writes or interleaved with them.
 
 Oracle (the property statement, nothing more):
   * reader output parses into whole written records (not torn); within one positioning of the reader, delivered record
@@ -76,6 +88,24 @@ SIZES       = (1, 3, 9)
 RELS        = {'>': H.SEC, '=': 0, '+': H.US, '<': -H.SEC, '~': H.SEC}   # '~': + 1 s + 0.5 us, explicit argument only
 NAV         = ('ss', 'se', 'sv', 'tl', 'rf', 'ro')
 DELS        = ('do', 'dm', 'dn')
+READ_OPS    = {'rd': ('read()', False, False), 'rb': ('read_block()', True, False),          # op: (text, block, mode override)
+               'rdo': ('read({!r})', False, True), 'rbo': ('read_block({!r})', True, True)}
+READ_ALL    = {'ra': 'rd', 'rba': 'rb', 'rdoa': 'rdo', 'rboa': 'rbo'}                                       # macro: the read it repeats
+
+
+def wname(n):
+    return f'w{n}' if 0 <= n <= 9 else f'w{{{n}}}'
+
+
+def wparse(op):
+    """'w3>c', 'w3>cf', 'w{1048576}>c' -> (payload size, timestamp relation, timestamp delivery, flush flag)."""
+
+    if op[1] == '{':
+        end = op.index('}')
+
+        return int(op[2:end]), op[end + 1], op[end + 2], op[end + 3:]
+
+    return int(op[1]), op[2], op[3], op[4:]
 
 
 class Violation(Exception):
@@ -289,8 +319,8 @@ class Model:
 
         for f in self.alive():
             if after[f.name] != f.content[:f.disk]:
-                raise Violation(self.ctx('file-content'), f'after {when}: {f.name} holds {after[f.name]!r}, the model says '
-                    f'{f.content[:f.disk]!r}{"" if f.disk == len(f.content) else " (+ " + repr(f.content[f.disk:]) + " not flushed)"} '
+                raise Violation(self.ctx('file-content'), f'after {when}: {f.name} holds {short(after[f.name])}, the model says '
+                    f'{short(f.content[:f.disk])}{"" if f.disk == len(f.content) else " (+ " + short(f.content[f.disk:]) + " not flushed)"} '
                     f'[{self.describe()}]')
 
     def on_delete(self, name):
@@ -452,14 +482,14 @@ class Exec:
         ops   = []
 
         if m.open_id is not None:      # appending: the timestamp is not looked at
-            ops += [f'w{n}>c{x}' for n in sizes for x in wfl]
+            ops += [f'{wname(n)}>c{x}' for n in sizes for x in wfl]
         elif not m.files:              # very first file
-            ops += [f'w{n}{rel}{v}{x}' for rel in '>~' for v in vias for n in sizes for x in wfl if rel in cfg.get('rels', '>=+<~') and (rel != '~' or v == 'g')]
+            ops += [f'{wname(n)}{rel}{v}{x}' for rel in '>~' for v in vias for n in sizes for x in wfl if rel in cfg.get('rels', '>=+<~') and (rel != '~' or v == 'g')]
         else:                          # roll-over
-            ops += [f'w{n}{rel}{v}{x}' for rel in cfg.get('rels', '>=+<~') for v in vias for n in sizes for x in wfl if rel != '~' or v == 'g']
+            ops += [f'{wname(n)}{rel}{v}{x}' for rel in cfg.get('rels', '>=+<~') for v in vias for n in sizes for x in wfl if rel != '~' or v == 'g']
 
         for op in cfg.get('reads', ('rd', 'rb')):
-            if op != 'rb' or self.mode != 'bin':   # in 'bin' mode read() is read_block()
+            if op not in ('rb', 'rdo', 'rbo') or self.mode != 'bin':   # in 'bin' mode read() is read_block(); no override there
                 ops.append(op)
 
         nav = cfg.get('nav', NAV)
@@ -508,7 +538,7 @@ class Exec:
         m = self.m
 
         if op[0] == 'w':
-            n, rel, via = int(op[1]), op[2], op[3]
+            n, rel, via, wfl = wparse(op)
             idx  = len(m.sizes)
             ts   = m.last_ts() + (RELS[rel] if m.files else H.SEC)
             arg  = None
@@ -520,25 +550,27 @@ class Exec:
                     arg = H.secs(ts) + (0.0000005 if rel == '~' else 0)   # a float with a sub-microsecond part, like time()
 
             before    = self.snap
-            flush     = {'': None, 'f': True, 'n': False}[op[4:]]
+            flush     = {'': None, 'f': True, 'n': False}[wfl]
             ret       = self.w.write(H.payload(self.mode, idx, n), arg) if flush is None else self.w.write(H.payload(self.mode, idx, n), arg, flush)
             self.snap = after = H.snapshot(self.dir)
 
             m.on_write(n, H.raw(self.mode, idx, n), ts, before, after, ret, self.cfg.get('flush', True) if flush is None else flush)
 
-        elif op == 'ra':                       # macro of reduced alphabets: read() until nothing more comes
+        elif op in READ_ALL:                   # macro of reduced alphabets: read until nothing more comes
             for _ in range(64):
                 before = m.last
 
-                self._step('rd')
+                self._step(READ_ALL[op])
 
                 if m.last == before:
                     break
 
-        elif op in ('rd', 'rb'):
-            how = 'read()' if op == 'rd' else 'read_block()'
-            fn  = self.r.read if op == 'rd' else self.r.read_block
-            out = fn()
+        elif op in READ_OPS:
+            how, block, over = READ_OPS[op]
+            args = (H.OVERRIDE[self.mode],) if over else ()
+            how  = how.format(*args)
+            fn   = lambda: (self.r.read_block if block else self.r.read)(*args)
+            out  = fn()
 
             if out is None and (owed := m.owed()):  # poll once more: a single None with data left is only counted
                 out = fn()
@@ -549,10 +581,10 @@ class Exec:
                 self.note['spurious_none'] = self.note.get('spurious_none', 0) + 1
 
             if out is not None:
-                idxs = H.parse(self.mode, out, m.sizes)
+                idxs = (H.parse_override if over else H.parse)(self.mode, out, m.sizes, max(m.last, m.floor - 1))
 
                 if isinstance(idxs, str):
-                    raise Violation(m.ctx('reader-torn-record'), f'{how} returned {out!r}: {idxs} [{m.describe()}]')
+                    raise Violation(m.ctx('reader-torn-record'), f'{how} returned {short(out)}: {idxs} [{m.describe()}]')
 
                 m.on_deliver(idxs, how)
 
@@ -629,13 +661,25 @@ class Exec:
         base = os.path.basename
         rf   = r.read_file
 
-        return (tuple(sorted(self.snap.items())),
+        return (tuple(sorted((k, v if len(v) < 4096 else (len(v), H.h64(v))) for k, v in self.snap.items())),
                 w.write_file is None, tuple((base(l.path), l.size, l.timestamp) for l in w.logfiles), w.logfiles_size,
                 r.read_idx, None if rf is None else rf.tell(),
                 None if r is w else tuple((base(l.path), l.size, l.timestamp) for l in r.logfiles),
                 self.m.key())
 
 
+
+
+def short(out, limit=200):
+    """repr() of reader output, long items abbreviated."""
+
+    if isinstance(out, list):
+        return '[' + ', '.join(short(it, 80) for it in out[:12]) + (f', ... {len(out)} items' if len(out) > 12 else '') + ']'
+
+    if isinstance(out, (bytes, bytearray, str)) and len(out) > limit:
+        return f'{out[:20]!r}...({len(out)} {"bytes" if not isinstance(out, str) else "characters"})'
+
+    return repr(out)
 
 
 def execute(cfg, ops, depth=None):
@@ -742,7 +786,78 @@ def plans(tier):
                              'flush': flush, 'wflush': wfl, 'reads': ('ra', 'rd'), 'nav': ('rf', 'ro', 'fl'), 'dels': ('do',)},
                             6 if quick else 8))
 
+    # EMPTY records (b'' in binl, '' in txt: a lone '\n' on disk) next to 1-byte ones, read back line by line, in blocks and
+    # with the mode override (raw lines of a txt log, decoded lines of a binl log); one record per file, a few per file,
+    # all in one file.  An empty item does not say which record it is (c13_rl.parse takes the next empty one), which is only
+    # unambiguous while no record can be passed over excusably: no deletion, no pruning, no seek-to-end here.
+    for mode in ('binl', 'txt'):
+        for fs, reader in [(1, 'auto'), (4, 'self'), (40, 'auto')] if quick else [(fs, r) for fs in (1, 4, 40) for r in ('self', 'auto')]:
+            out.append(({'name': 'empty', 'mode': mode, 'file_size': fs, 'total_size': 400, 'reader': reader, 'vias': 'c', 'sizes': (0, 1),
+                         'rels': '>', 'reads': ('rd', 'rb', 'rbo') if quick else ('rd', 'rb', 'rdo', 'rbo'), 'nav': ('tl', 'sv'), 'dels': ()},
+                        6 if quick else 7))
+
+    # reads with a mode override on logs whose records are not plain ASCII lines: txt records that contain other line-boundary
+    # characters read raw (read('binl') / read_block('binl') must split at b'\n' only), json records read as raw JSON text
+    for mode in ('txtl', 'json'):
+        out.append(({'name': 'raw', 'mode': mode, 'file_size': 4, 'total_size': 12, 'reader': 'auto', 'vias': 'c', 'sizes': (1, 3), 'rels': '>',
+                     'reads': ('rd', 'rb', 'rdo', 'rbo'), 'nav': ('tl', 'sv'), 'dels': ()}, 5 if quick else 6))
+
+    for cfg, depth in out:
+        if 0 in cfg.get('sizes', SIZES) and (cfg.get('dels', DELS) or 'se' in cfg.get('nav', NAV) or cfg['total_size'] < depth * 10
+                                           or cfg['mode'] not in ('binl', 'txt', 'txtw')):
+            raise RuntimeError(f'harness: empty records in a search with deletion / pruning / seek-to-end or a mode without them: {cfg}')
+
     return out
+
+
+# Payload sizes of the big-record family: around the io buffer size (8 KiB) and powers of two that a reader may use as a chunk
+# size for block reads (64 KiB, 256 KiB, 1 MiB), and a few MiB.  d = -3 .. +1: the record on disk is the payload plus '\n'
+# (plus two quotes in json mode).
+BIG_SIZES = tuple(sorted({2 ** k + d for k in (13, 16, 18, 20) for d in (-3, -2, -1, 0, 1)} | {2 ** 21 + 1, 3 * 2 ** 20 + 5}))
+
+
+def big_cases(tier):
+    """[(cfg, history)] of the big-record family: one big record B between / before 3-byte records, read back completely
+    (R: line by line, in blocks, in blocks with the mode override) after all writes or in between:
+        w3 B w3 R*        w3 R B R w3 R        B R w3 R        (R* = until nothing more comes)
+    file_size 1: one file per record, the writer object reads (quick) ; file_size 16 MiB: one file holds everything, an
+    autorefresh reader follows (quick); thorough: both readers for both."""
+
+    quick = tier == 'quick'
+    out   = []
+
+    for mode in MODES:
+        reads = ('rd',) if mode == 'bin' else ('rd', 'rb', 'rbo') if quick else ('rd', 'rb', 'rdo', 'rbo')
+
+        for fs, reader in [(1, 'self'), (16 << 20, 'auto')] if quick else [(fs, r) for fs in (1, 16 << 20) for r in ('self', 'auto')]:
+            cfg = {'name': 'big', 'mode': mode, 'file_size': fs, 'total_size': 64 << 20, 'reader': reader, 'vias': 'c'}
+
+            for n in BIG_SIZES:
+                big = f'{wname(n)}>c'
+
+                for r in reads:
+                    out.append((cfg, ('w3>c', big, 'w3>c', {'rd': 'ra', 'rb': 'rba', 'rdo': 'rdoa', 'rbo': 'rboa'}[r])))
+                    out.append((cfg, ('w3>c', r, big, r, 'w3>c', r)))
+
+                    if not quick:
+                        out.append((cfg, (big, r, 'w3>c', r)))
+
+    return out
+
+
+def _big(item):
+    """Worker: one history of the big-record family."""
+
+    import time
+
+    t0 = time.process_time()
+
+    cfg, ops  = item
+    v, at, ex = execute(cfg, ops)
+    m         = ex.m
+
+    return (cfg, ops, None if v is None else (v.sig, v.what, at), len(ops) if v is None else at + 1, getattr(ex, 'final_key', None),
+            len(m.files) >= 2 and m.last >= 0, sum(m.sizes), ex.note, time.process_time() - t0)
 
 
 _PLANS = None
@@ -780,10 +895,16 @@ def _expand(item):
 def cfg_name(cfg):
     extra = ''.join(f'/{k}={"".join(map(str, cfg[k]))}' for k in ('vias', 'sizes', 'rels') if k in cfg)
 
+    if 'reads' in cfg and any(r in ('rdo', 'rbo') for r in cfg['reads']):
+        extra += '/override'
+
     if not cfg.get('flush', True):
         extra += '/noflush'
     if 'wflush' in cfg:
         extra += '/wflush=' + ''.join(x or '-' for x in cfg['wflush'])
+
+    if 'name' in cfg:
+        extra += '/' + cfg['name']
 
     return f'{cfg["mode"]}/fs{cfg["file_size"]}/ts{cfg["total_size"]}/{cfg["reader"]}{extra}'
 
@@ -806,7 +927,12 @@ def _run(rep):
     if rep.only:
         _PLANS = [(c, d) for c, d in _PLANS if rep.only in cfg_name(c)]
 
-    maxd = max(d for _, d in _PLANS)
+    big = [(c, h) for c, h in big_cases(rep.tier) if not rep.only or rep.only in cfg_name(c)]
+
+    if not _PLANS and not big:
+        raise RuntimeError(f'harness: --only {rep.only!r} matches no configuration')
+
+    maxd = max([d for _, d in _PLANS], default=0)
 
     rep.set('rule', 'a case = one operation sequence (history) of one configuration (mode, file_size, total_size, reader kind, '
         'alphabet) executed from scratch on the real RollLog in an empty tmpfs directory; states = distinct canonical '
@@ -829,6 +955,14 @@ def _run(rep):
         'clause counts bytes on disk; every other configuration flushes every record (the default)')
     rep.assumption('how the timestamp reaches new_logfile (virtual clock with timestamp=None, or explicit argument) is fixed '
         'per configuration (see plans()); thorough: txt both')
+    rep.assumption('empty records (payload size 0; binl and txt only - bin has no delimiter and a json record is never empty) are '
+        'written only in the searches named .../empty, which neither delete nor prune nor seek to the end: an empty item of the '
+        'reader output is taken for the first empty record after the last one delivered, the only reading under which nothing '
+        'was skipped or repeated there; reads with a mode override (rdo / rbo: \'binl\' on txt and json logs, \'txt\' on binl '
+        'logs) are offered in those searches and in the big-record family only')
+    rep.assumption(f'records of more than 9 payload bytes exist only in the big-record family (part big_records: a fixed list of '
+        f'short histories, not a search; payload sizes {list(BIG_SIZES)}; executed and judged like every other history); in json '
+        f'mode such a record is a string of digits instead of an integer')
 
     seen     = [set() for _ in _PLANS]
     nontriv  = [set() for _ in _PLANS]
@@ -883,17 +1017,50 @@ def _run(rep):
 
         frontier = nxt
 
-    rep.add('evaluations', execs)
-    rep.set('traces_validated_against_impl', execs)
-    rep.set('transitions', execs)   # one new operation per executed history (its prefix was executed at the level before)
-    rep.set('states', sum(len(s) for s in seen))
-    rep.set('distinct_nontrivial', sum(len(s) for s in nontriv))
+    # the big-record family: a fixed list of histories (heaviest first, so that the workers finish together)
+
+    bigkeys = set()
+    bignt   = set()
+    bigops  = 0
+    bigmax  = 0
+    nbytes  = 0
+
+    for cfg, ops, viol, nops, key, nt, written, note, dt in common.pmap_ordered(_big, sorted(big, key=lambda it: -max(wparse(o)[0] for o in it[1] if o[0] == 'w')), chunksize=2):
+        cpu    += dt
+        bigops += nops
+        nbytes += written
+
+        for k, n in note.items():
+            notes[k] = notes.get(k, 0) + n
+
+        if viol is not None:
+            viols.append((viol[2] + 1, None, (cfg, ops[:viol[2] + 1]), viol[:2]))
+
+            continue
+
+        bigkeys.add((cfg_name(cfg), key))
+
+        if nt:
+            bignt.add((cfg_name(cfg), key))
+
+    if big:
+        rep.part('big_records', histories_executed=len(big), operations_executed=bigops, distinct_final_states=len(bigkeys),
+            payload_sizes=len(BIG_SIZES), largest_payload=max(BIG_SIZES), payload_bytes_written=nbytes,
+            configurations=len({cfg_name(c) for c, _ in big}), history_shapes=len({tuple('B' if o[:2] == 'w{' else o for o in h) for _, h in big}))
+
+    rep.add('evaluations', execs + len(big))
+    rep.set('traces_validated_against_impl', execs + len(big))
+    rep.set('transitions', execs + bigops)   # one new operation per executed history of the search (its prefix was executed at the level before)
+    rep.set('states', sum(len(s) for s in seen) + len(bigkeys))
+    rep.set('distinct_nontrivial', sum(len(s) for s in nontriv) + len(bignt))
     rep.set('configurations', len(_PLANS))
     rep.set('max_depth', maxd)
     rep.set('worker_cpu_s', round(cpu, 1))
     rep.part('domain', modes=len(MODES), file_sizes=len(FILE_SIZES), total_sizes=len(TOTAL_SIZES), reader_kinds=len(READERS),
         write_sizes=len(SIZES), timestamp_relations=len(RELS), timestamp_delivery=2, other_operations=2 + len(NAV) + len(DELS),
         searches=len(_PLANS), searches_with_unflushed_writes=sum(1 for c, _ in _PLANS if not c.get('flush', True) or 'wflush' in c),
+        searches_with_empty_records=sum(1 for c, _ in _PLANS if 0 in c.get('sizes', SIZES)),
+        searches_with_mode_override_reads=sum(1 for c, _ in _PLANS if 'rbo' in c.get('reads', ())),
         **{f'searches_to_depth_{d}': sum(1 for _, x in _PLANS if x == d) for d in sorted({x for _, x in _PLANS})})
     rep.part('notes', **notes)
     rep.set('exhaustive', True)
@@ -901,18 +1068,24 @@ def _run(rep):
     for cfg, depth in _PLANS[:1] + _PLANS[-1:]:
         rep.sample({'configuration': cfg_name(cfg), 'cfg': cfg, 'depth': depth})
 
+    for cfg, ops in big[:1]:
+        rep.sample({'configuration': cfg_name(cfg), 'cfg': cfg, 'history': list(ops)})
+
+    viols = [(d, ci, hist, v) if ci is not None else (d, len(_PLANS), hist[1], v, hist[0]) for d, ci, hist, v in viols]   # big-record family: own cfg
+
     viols.sort(key=lambda v: (v[0], v[1], v[2]))
 
     bysig = {}
 
-    for depth, ci, hist, (sig, what) in viols:
+    for depth, ci, hist, (sig, what), *own in viols:
+        cfg        = own[0] if own else _PLANS[ci][0]
         bysig[sig] = bysig.get(sig, 0) + 1
 
         if bysig[sig] == 1:
-            rep.sample({'violation': sig, 'configuration': cfg_name(_PLANS[ci][0]), 'ops': list(hist)})
+            rep.sample({'violation': sig, 'configuration': cfg_name(cfg), 'ops': list(hist)})
 
-        rep.violation(sig, f'{cfg_name(_PLANS[ci][0])} history [{" ".join(hist)}]: {what}',
-            {'kind': 'e3', 'case': {'cfg': _PLANS[ci][0], 'ops': list(hist)}})
+        rep.violation(sig, f'{cfg_name(cfg)} history [{" ".join(hist)}]: {what}',
+            {'kind': 'e3', 'case': {'cfg': cfg, 'ops': list(hist)}})
 
     rep.part('violating_histories_by_signature', **bysig)
 
